@@ -134,6 +134,7 @@ def fcacheGetRead (cfg : Cfg) (fidx pos : Nat) (orc : List Ext) : Out Fce :=
   let blkpos := pos - pos % cfg.pgsz
   let key := blkpos ||| fidx
   let off := pos % cfg.pgsz
+  if blkpos > 0 ∧ blkpos ≥ cfg.filesz then ⟨.err .eof, [], orc⟩ else
   match orc with
   | .entBusy :: o => ⟨.err .busy, [.busy .fb key], o⟩
   | .entHit (some a) :: o => ⟨.ok ⟨a + off, cfg.pgsz - off, .fb, key⟩, [.acq .fb key], o⟩
